@@ -93,6 +93,8 @@ pub struct HistScenario {
     /// replay the add / replace / remove / validate steps on a parser whose id type has
     /// massively colliding hashes (see coarse.rs); file steps are ignored
     pub coarse_ids: bool,
+    /// the long-lived parser comes from `Parser::default()` (the references from `new()`), or the other way round
+    pub ctor_default: bool,
 }
 
 pub fn size(s: &HistScenario) -> (usize, usize) {
@@ -117,6 +119,7 @@ pub fn to_json(s: &HistScenario) -> J {
         .set("n_callers", J::u(s.n_callers as u64))
         .set("observe_every_step", J::Bool(s.observe_every_step))
         .set("coarse_ids", J::Bool(s.coarse_ids))
+        .set("ctor_default", J::Bool(s.ctor_default))
         .set(
             "steps",
             J::Arr(
@@ -234,6 +237,7 @@ pub fn from_json(j: &J) -> Result<HistScenario, String> {
             .and_then(|b| b.as_bool())
             .unwrap_or(true),
         coarse_ids: j.get("coarse_ids").and_then(|b| b.as_bool()).unwrap_or(false),
+        ctor_default: j.get("ctor_default").and_then(|b| b.as_bool()).unwrap_or(false),
     })
 }
 
@@ -584,6 +588,7 @@ fn generate_tiny(rng: &mut Rng) -> (HistScenario, String) {
             n_callers,
             observe_every_step,
             coarse_ids,
+            ctor_default: rng.pct(50),
         },
         desc,
     )
@@ -951,6 +956,7 @@ pub fn generate(rng: &mut Rng, prop: Prop, thorough: bool) -> (HistScenario, Str
             n_callers,
             observe_every_step,
             coarse_ids,
+            ctor_default: rng.pct(50),
         },
         desc,
     )
